@@ -303,6 +303,15 @@ func (w *World) Init(s *kernel.Sim) {
 	if p.IDFunc == "index" && t.Chance(1, 2) {
 		p.Mix.DupPct = []int{10, 30}[t.Intn(2)]
 	}
+	if !w.mode.Lock && !s.Timed && !w.mode.Ctl && t.Chance(1, 40) {
+		// a big run: batches beyond 1000 entries (ValidateMigrationConfig sets no upper bound) over a source of more
+		// than a thousand entries, most of them cheap to build (certificate bytes that do not parse)
+		p.BatchSize = []int{1001, 1337, 2048, 1100}[t.Intn(4)]
+		p.N0 = t.Range(1001, 1400)
+		p.Growth = 0
+		p.Mix.BadPct = 90
+		s.Probe("big-batch-run")
+	}
 
 	// destination: what an earlier life of the migrator left behind
 	p.DestKind = "empty"
